@@ -8,6 +8,7 @@ opportunity whose capacity test is an adversarial Bool (`Sched.want`) and whose 
 -/
 import JsonV.Lemmas.FlushCycle
 import JsonV.Gen.Constants
+import JsonV.Gen.Lits
 
 namespace JsonV.Props.C07
 open JsonV JsonV.Model.Flush
@@ -18,6 +19,45 @@ theorem buffer_constants :
     JsonV.Gen.jsontext.c_encoderState_Flush_maxBufferSize = 4096 ∧
     JsonV.Gen.jsontext.c_encoderState_Flush_growthSizeFactor = 2 ∧
     JsonV.Gen.jsontext.c_encoderState_Flush_growthRateFactor = 2 := by decide
+
+/-- Tie A: the hand-modelled suffix list of avoidFlush is the list of string literals of the Go function
+(`ll`, `""`, `{}`, `[]`, in source order), and its integer literals are the `== 0` and `>= 2` / `len-2` of the source. -/
+theorem tie_avoidFlush_suffixes :
+    emptySuffixes.map (fun s => [s.1.toNat, s.2.1.toNat]) = JsonV.Gen.jsontext_encoderState_avoidFlush_strs ∧
+    JsonV.Gen.jsontext_encoderState_avoidFlush_ints = [0, 2, 2] := by decide
+
+/-- The model's avoidFlush / UnwriteEmptyObjectMember tests are exactly look-ups in that table. -/
+theorem endsEmptyR_table (x y : UInt8) (r : List UInt8) :
+    endsEmptyR (x :: y :: r) = emptySuffixes.any (fun s => y == s.1 && x == s.2.1) := by
+  simp [endsEmptyR, emptySuffixes, Bool.or_assoc]
+
+theorem emptyLenR_table (x y z : UInt8) (r : List UInt8) :
+    emptyLenR (x :: y :: z :: r) =
+      match emptySuffixes.find? (fun s => y == s.1 && x == s.2.1) with
+      | some s => if s.1 = 0x22 ∧ z = 0x5c then 0 else s.2.2
+      | none => 0 := by
+  simp only [emptyLenR, emptySuffixes, List.find?]
+  by_cases h1 : (y == 0x6c && x == 0x6c) = true
+  · simp [h1]
+  · by_cases h2 : (y == 0x22 && x == 0x22) = true
+    · simp [h1, h2]
+    · by_cases h3 : (y == 0x7b && x == 0x7d) = true
+      · simp [h1, h2, h3]
+      · by_cases h4 : (y == 0x5b && x == 0x5d) = true
+        · simp [h1, h2, h3, h4]
+        · simp [h1, h2, h3, h4]
+
+/-- Tie A: the string literals of UnwriteEmptyObjectMember after the panic message, in source order:
+`ll` `null` | `""` `\` `""` | `{}` `{}` | `[]` `[]` | `:` | `,` — each case label is a table suffix, followed by the
+literal whose length is the table's byte count (with the `\` test inside the `""` case), then the colon and comma that
+TrimSuffixByte removes; the integer literals are n=0, `len(b) >= 3`, `len-2`, `len-3`, `n == 0`. -/
+theorem tie_unwrite_literals :
+    JsonV.Gen.jsontext_encoderState_UnwriteEmptyObjectMember_strs.tail =
+      [[0x6c, 0x6c], [0x6e, 0x75, 0x6c, 0x6c], [0x22, 0x22], [0x5c], [0x22, 0x22], [0x7b, 0x7d], [0x7b, 0x7d],
+       [0x5b, 0x5d], [0x5b, 0x5d], [0x3a], [0x2c]] ∧
+    JsonV.Gen.jsontext_encoderState_UnwriteEmptyObjectMember_ints = [0, 3, 2, 3, 0] ∧
+    (emptySuffixes.map (fun s => s.2.2) = [[0x6e, 0x75, 0x6c, 0x6c], [0x22, 0x22], [0x7b, 0x7d], [0x5b, 0x5d]].map List.length) := by
+  decide
 
 /-! ### wire.go: TrimSuffixWhitespace / TrimSuffixByte / HasSuffixByte / TrimSuffixString -/
 
